@@ -8,6 +8,8 @@ import Rare.Proofs.C11R4
 import Rare.Proofs.C11Log
 import Rare.Proofs.C17Atoi
 import Rare.Proofs.C11Arity
+import Rare.Proofs.C11Percent
+import Rare.Proofs.C11CaseIdem
 /-!
 # C11 — scalar helper functions follow their documented semantics
 
@@ -991,6 +993,42 @@ theorem gen_select_chars : ∀ n : Nat, n < 256 →
 theorem gen_dispatch :
     (c11Dispatch.all fun p => dispatchLookup Gen.C11.dispatch p.1 == some p.2) = true := by decide +kernel
 
+/-! ## percent (round 4c): what a call computes, the default range, the boundary `min = max` -/
+
+/-- **`{percent a p min max}`** – value, min and max constants, groups or keys that parse as floats, `p` a constant
+    precision `≤ 1024`: the float expression `(v - min)·100 / (max - min)` (each operation correctly rounded) rendered
+    with `p` decimals, then `%`. -/
+theorem percent_call_spec (c : Ctx) (a mn mx : Arg) (pb : Bytes) (p : Int) (hp : atoi pb = some p) (hmax : p ≤ 1024)
+    (x lo hi : F64) (ha : Float.parseF (a.val c) = some x) (hlo : Float.parseF (mn.val c) = some lo)
+    (hhi : Float.parseF (mx.val c) = some hi) :
+    callHelper Float.kfPercent [a, .const pb, mn, mx] c = .ok (Float.percentStr x lo hi p) ∧
+    Float.percentStr x lo hi p =
+      F64.format (F64.div (F64.mul (F64.sub x lo) (F64.ofInt 100)) (F64.sub hi lo)) p ++ [37] :=
+  ⟨percent_call4 c a mn mx pb p hp hmax x lo hi ha hlo hhi, rfl⟩
+
+/-- **Default range** `0 … 1`: `{percent v p}` is the rendering of the single float product `v·100` (no further
+    rounding from the subtraction of 0 and the division by 1), for every finite `v` – `-0` and overflow to `±Inf`
+    included. -/
+theorem percent_default_range (v : F64) (d : Int) (hv : v.isFinite = true) :
+    Float.percentStr v (F64.zero false) F64.one d = F64.format (F64.mul v (F64.ofInt 100)) d ++ [37] :=
+  percentStr_default_range v d hv
+
+/-- **Boundary `min = max`** (finite): the code divides by `max - min = +0`; the answer is `NaN%` when `(v - min)·100`
+    is zero, else `+Inf%` / `-Inf%` by its sign – as IEEE has it, no marker, never digits. -/
+theorem percent_min_eq_max (val m : F64) (d : Int) (hv : val.isFinite = true) (hm : m.isFinite = true) :
+    Float.percentStr val m m d =
+      (if (F64.mul (F64.sub val m) (F64.ofInt 100)).mag = 0 then ascii "NaN"
+       else if (F64.mul (F64.sub val m) (F64.ofInt 100)).sign then ascii "-Inf" else ascii "+Inf") ++ [37] :=
+  percentStr_min_eq_max val m d hv hm
+
+example : Float.percentStr (F64.ofInt 5) (F64.ofInt 3) (F64.ofInt 3) 1 = ascii "+Inf%" ∧
+    Float.percentStr (F64.ofInt 3) (F64.ofInt 3) (F64.ofInt 3) 1 = ascii "NaN%" ∧
+    Float.percentStr (F64.ofInt 1) (F64.ofInt 3) (F64.ofInt 3) 0 = ascii "-Inf%" ∧
+    Float.percentStr (F64.ofRat 0.125) (F64.zero false) F64.one 1 = ascii "12.5%" ∧
+    (callHelper Float.kfPercent [.group 0, .const (ascii "2"), .const (ascii "10"), .group 1]
+      ⟨fun i => if i = 0 then ascii "15" else ascii "30", fun _ => []⟩).toOption = some (ascii "25.00%") := by
+  decide +kernel
+
 /-! ## admissible arities (round 4c): the argument-count guard of every helper, for argument lists of every length
 
 The property quantifies over "all admissible arities".  Which arities are admissible is decided by the guard at the
@@ -1103,6 +1141,19 @@ theorem rune_case_ascii_border :
     · rintro (h | h) <;> subst h
       · rw [Case.toRune_exceptions.2.2.1]; decide
       · rw [Case.toRune_exceptions.2.2.2]; decide
+
+/-- **`unicode.ToUpper` / `unicode.ToLower` are idempotent on every rune** (round 4c; all code points and beyond): a
+    rune that came out of the table is left alone by the table.  Range-level argument: for every pair of ranges the
+    image of the first misses the second, or the second has delta 0 for this case, or both are the same alternating
+    range – 2 × 328² checks in the kernel, then arithmetic.  The mixed composition is NOT the identity on images:
+    `upper (lower İ) = I ≠ İ = upper İ` (example below). -/
+theorem rune_case_idempotent (r : Nat) :
+    Case.toUpperR (Case.toUpperR r) = Case.toUpperR r ∧ Case.toLowerR (Case.toLowerR r) = Case.toLowerR r :=
+  ⟨Case.toRune_idem false r, Case.toRune_idem true r⟩
+
+example : Case.toUpperR (Case.toLowerR 0x130) = 0x49 ∧ Case.toUpperR 0x130 = 0x130 ∧
+    Case.toLowerR (Case.toUpperR 0x17F) = 0x73 ∧ Case.toLowerR 0x17F = 0x17F ∧
+    Case.toUpperR (Case.toUpperR 0x1C6) = 0x1C4 ∧ Case.toUpperR 0x1C5 = 0x1C4 := by decide +kernel
 
 /-- **C11 × C13**: the sorters' model takes `unicode.ToLower` as a parameter and assumes the contract
     `C13.RuneLower` (checked there by correspondence only).  The table-driven `toLowerR` – tied to Go's table by
